@@ -11,9 +11,10 @@ namespace Juno.C05
 by state root, block hashes are pairwise distinct and so are all transaction hashes (an ideal
 collision-free hash: a block hash commits to number and parent, a transaction hash to its nonce). -/
 structure WfChain (c : List Block) : Prop where
-  num : ∀ i (h : i < c.length), (c[i]).num = i
-  link : ∀ i (h : i + 1 < c.length), (c[i + 1]).parent = (c[i]).hash ∧ (c[i + 1]).oldRoot = (c[i]).root
-  first : ∀ (h : 0 < c.length), (c[0]).parent = 0 ∧ (c[0]).oldRoot = 0
+  num : ∀ (i : Nat) (x : Block), c[i]? = some x → x.num = i
+  link : ∀ (i : Nat) (x y : Block), c[i]? = some x → c[i + 1]? = some y →
+    y.parent = x.hash ∧ y.oldRoot = x.root
+  first : ∀ x : Block, c[0]? = some x → x.parent = 0 ∧ x.oldRoot = 0
   hashes : (c.map (·.hash)).Nodup
   txs : (c.flatMap (·.txs)).Nodup
 
